@@ -79,6 +79,10 @@ pub enum Op {
 	BadType,
 	/// `serialize` of a record whose array advertises 3 elements and delivers 2
 	BadLen,
+	/// `serialize` (schema order) of a record whose field `b` is a poorly compressible string of
+	/// this many KiB (7-bit characters from a fixed xorshift sequence): used by the fixed
+	/// large-block templates only, not part of the enumerated alphabets
+	Huge(u8),
 	/// `push_serialized(one datum, 1)`
 	Push1,
 	/// `push_serialized(two datums, 2)`
@@ -104,6 +108,7 @@ impl Op {
 			Op::Big => "ser_big".into(),
 			Op::SmallRev => "ser_small_rev".into(),
 			Op::BigMix => "ser_big_mix".into(),
+			Op::Huge(kib) => format!("ser_huge({kib})"),
 			Op::Fail(k) => format!("ser_fail_at({k})"),
 			Op::FailRev(k) => format!("ser_fail_rev({k})"),
 			Op::BadType => "ser_bad_type".into(),
@@ -129,6 +134,9 @@ impl Op {
 			"into_inner" => Op::IntoInner,
 			"drop" => Op::Drop,
 			other => {
+				if let Some(k) = other.strip_prefix("ser_huge(") {
+					return Some(Op::Huge(k.strip_suffix(')')?.parse().ok()?));
+				}
 				if let Some(k) = other.strip_prefix("ser_fail_rev(") {
 					return Some(Op::FailRev(k.strip_suffix(')')?.parse().ok()?));
 				}
@@ -235,6 +243,24 @@ impl Datum {
 	}
 	pub fn big(&self, n: usize) -> RValue {
 		self.rec(n as i64 % 64, &[BIG_X, "b"], BIG_B, 8192, "nested")
+	}
+	/// a record whose `b` is `kib` KiB of 7-bit characters from a fixed xorshift64 sequence (seeded
+	/// by the size, no randomness at run time): about 7/8 of its size after entropy coding
+	pub fn huge(&self, n: usize, kib: u8) -> RValue {
+		let mut x: u64 = 0x9e37_79b9_7f4a_7c15 ^ ((kib as u64) << 32 | kib as u64);
+		let len = kib as usize * 1024;
+		let mut b = String::with_capacity(len);
+		while b.len() < len {
+			x ^= x << 13;
+			x ^= x >> 7;
+			x ^= x << 17;
+			for byte in x.to_le_bytes() {
+				if b.len() < len {
+					b.push((byte & 0x7f) as char);
+				}
+			}
+		}
+		self.rec(n as i64 % 64, &["h"], &b, 1, "h")
 	}
 	pub fn pushed(&self, n: usize) -> RValue {
 		self.rec(-1 - (n as i64 % 64), &["p"], "", 0, "")
@@ -347,8 +373,17 @@ fn run_history_on<'c, 's, W: Write>(d: &Datum, config: &'c mut SerializerConfig<
 	for (i, &op) in ops.iter().enumerate() {
 		let mut values: Vec<RValue> = Vec::new();
 		let result: Out<()> = match op {
-			Op::Small | Op::Big | Op::SmallRev | Op::BigMix => {
-				let v = if matches!(op, Op::Small | Op::SmallRev) { d.small(accepted) } else { d.big(accepted) };
+			Op::Small | Op::Big | Op::SmallRev | Op::BigMix | Op::Huge(_) => {
+				let v = match op {
+					Op::Small | Op::SmallRev => d.small(accepted),
+					Op::Huge(kib) => {
+						if !d.is_record {
+							machinery("ser_huge needs the record datum");
+						}
+						d.huge(accepted, kib)
+					}
+					_ => d.big(accepted),
+				};
 				let p = match op {
 					Op::SmallRev => d.pres_rev(&v),
 					Op::BigMix => d.pres_mix(&v),
@@ -467,6 +502,8 @@ pub struct Inspected {
 	pub values: Vec<RValue>,
 	/// object count per block
 	pub block_counts: Vec<u64>,
+	/// stored (codec-framed) size of every block
+	pub block_stored_sizes: Vec<usize>,
 }
 
 /// Reference inspection: complete header with the right schema / codec / sync marker, whole
@@ -493,6 +530,7 @@ pub fn inspect(d: &Datum, codec: &str, bytes: &[u8]) -> Result<Inspected, String
 	let env = Env::new(&d.schema);
 	let mut values = Vec::new();
 	let mut block_counts = Vec::new();
+	let mut block_stored_sizes = Vec::new();
 	for (bi, b) in f.blocks.iter().enumerate() {
 		let mut at = 0usize;
 		for k in 0..b.count {
@@ -508,6 +546,7 @@ pub fn inspect(d: &Datum, codec: &str, bytes: &[u8]) -> Result<Inspected, String
 			return Err(format!("block {bi}: count says {} objects, they end at offset {at} of {} data bytes", b.count, b.data.len()));
 		}
 		block_counts.push(b.count);
+		block_stored_sizes.push(b.raw.len());
 	}
-	Ok(Inspected { values, block_counts })
+	Ok(Inspected { values, block_counts, block_stored_sizes })
 }
